@@ -67,9 +67,20 @@ class GGen:
         self.names = []
         self.shared_groups = []
         self.feats = set()
+        self.rare_pending = False  # the keyword 'd' is still to be placed (exactly once, in one syntactic role)
+        self.bare = None  # name of a rule that is a single action-free repetition/gather/group, referenced from operators
 
     def p(self, x):
         return self.r.random() < x
+
+    def role(self, role, default):
+        """the item for a syntactic role; once per grammar a role may get the hard keyword 'd', which then occurs nowhere
+        else in the grammar: it is a keyword all the same (NAME must not match it), whatever construct mentions it"""
+        if self.rare_pending and self.p(0.35):
+            self.rare_pending = False
+            self.feats.add(f"keyword-only-as:{role}")
+            return L("d")
+        return default
 
     def tok(self):
         return self.r.choice(TOKS)
@@ -127,8 +138,11 @@ class GGen:
         if c < 0.75:
             self.feats.add("gather")
             sep = self.r.choice([L(","), L("c"), L(","), ["tok", "NUMBER"], ["tok", "NAME"], ["lit", '"s"'], ["grp", [[[[None, L(",")]], None], [[[None, L("c")]], None]]]])
+            sep = self.role("gather-separator", sep)
             if sep[0] != "lit":
                 self.feats.add("gather-with-non-literal-separator")
+            if sep == L("d") and self.p(0.6):
+                return ["gather", sep, ["tok", "NAME"]]
             return ["gather", sep, self.simple_atom(i, depth + 1)]
         if c < 0.9:
             self.feats.add("group")
@@ -137,6 +151,9 @@ class GGen:
 
     def simple_atom(self, i, depth):
         c = self.r.random()
+        if self.bare and self.names[i] != self.bare and self.p(0.3):
+            self.feats.add("ref-to-bare-rule-under-operator")
+            return ["ref", self.bare]
         if c < 0.5 or depth > 2:
             return self.tok()
         if c < 0.7 and i + 1 < len(self.names):
@@ -150,22 +167,22 @@ class GGen:
             return self.consuming_item(i, depth)
         if c < 0.62:
             self.feats.add("opt")
-            return ["opt", self.consuming_item(i, depth + 1)]
+            return ["opt", self.role("optional", self.consuming_item(i, depth + 1))]
         if c < 0.70:
             self.feats.add("rep0")
-            return ["rep0", self.simple_atom(i, depth + 1)]
+            return ["rep0", self.role("repetition", self.simple_atom(i, depth + 1))]
         if c < 0.78:
             self.feats.add("pos-lookahead")
-            return ["pos", self.simple_atom(i, depth + 1)]
+            return ["pos", self.role("lookahead", self.simple_atom(i, depth + 1))]
         if c < 0.86:
             self.feats.add("neg-lookahead")
-            return ["neg", self.simple_atom(i, depth + 1)]
+            return ["neg", self.role("lookahead", self.simple_atom(i, depth + 1))]
         if c < 0.91:
             self.feats.add("cut")
             return ["cut"]
         if c < 0.95 and self.allow_forced:
             self.feats.add("forced")
-            return ["forced", self.r.choice(["'a'", "'b'", "','"])]
+            return ["forced", self.role("forced", L(self.r.choice(["a", "b", ","])))[1]]
         return self.consuming_item(i, depth)
 
     def alt(self, i, depth, allow_left=True, left_to=None):
@@ -213,6 +230,9 @@ class GGen:
         self.names = [f"r{i}" for i in range(1, n + 1)]
         rules = []
         indirect = None
+        self.rare_pending = self.p(0.25)
+        if n >= 2 and self.p(0.25):
+            self.bare = self.names[-1]
         if n >= 2 and self.p(0.2):
             # indirect left recursion: r_i -> r_j ... and r_j -> r_i ...
             a = self.r.randrange(n - 1)
@@ -224,10 +244,17 @@ class GGen:
             if shape < 0.15:
                 # all alternatives single items without actions: inlined through seq_alts
                 self.feats.add("inlinable-rule")
-                alts = [[[[None, self.consuming_item(i, 1)]], None] for _ in range(self.r.randint(2, 4))]
+                alts = [[[[None, self.role("inlined-choice", self.consuming_item(i, 1))]], None] for _ in range(self.r.randint(2, 4))]
                 if self.allow_forced and self.p(0.3):
                     self.feats.add("forced-in-inlinable-rule")
                     alts.insert(self.r.randint(1, len(alts)), [[[None, ["forced", self.r.choice(["'a'", "'b'", "','"])]]], None])
+            elif nm == self.bare:
+                # one alternative, one action-free item: the rule's value is the item's own value, and its failure
+                # (None) must stay distinguishable from an empty match wherever the rule is used under an operator
+                self.feats.add("bare-rule")
+                t = self.tok()
+                item = self.r.choice([["rep1", t], ["rep1", ["grp", [[[[None, t], [None, self.tok()]], None]]]], ["gather", L(","), t], ["grp", [[[[None, t]], None], [[[None, self.tok()]], None]]], ["rep1", t]])
+                alts = [[[[None, item]], None]]
             else:
                 alts = [self.alt(i, 0) for _ in range(self.r.randint(1, 3))]
             if indirect and i == indirect[0]:
@@ -254,6 +281,8 @@ class GGen:
             if memo:
                 self.feats.add("memo")
             rules.append([nm, memo, alts])
+        if not self.rare_pending and any(f.startswith("keyword-only-as:") for f in self.feats) and '"NAME"' not in __import__("json").dumps(rules):
+            rules[-1][2].append([[[None, ["tok", "NAME"]]], None])  # something the unreserved keyword could be mistaken for
         rules.insert(0, ["start", False, [[[["e", ["ref", "r1"]], [None, ["tok", "ENDMARKER"]]], '("S", e)'], [[["e", ["ref", "r1"]]], '("P", e)']]])
         return rules
 
